@@ -98,7 +98,11 @@ def balloon_types(rnd, ncpu):
         {"name": "nomem", "pinMemory": False, "minCPUs": 1, "maxCPUs": 2},
     ]
     k = rnd.randint(1, 4)
-    return [copy.deepcopy(t) for t in rnd.sample(menu, k)]
+    out = [copy.deepcopy(t) for t in rnd.sample(menu, k)]
+    for t in out:
+        if rnd.random() < 0.5:
+            t["cpuClass"] = "cls-" + t["name"]
+    return out
 
 
 def balloons_worlds(ms, rnd, n):
@@ -112,6 +116,8 @@ def balloons_worlds(ms, rnd, n):
         cand = [c for c in cpus if c not in iso]
         cfg = {"reservedResources": {"cpu": "cpuset:%d" % cand[0]} if rnd.random() < 0.7 else {"cpu": "1"},
                "balloonTypes": balloon_types(rnd, len(cpus)), "showContainersInNrt": True}
+        if rnd.random() < 0.5:
+            cfg["idleCPUClass"] = "idle"
         if rnd.random() < 0.2 and len(cpus) > 4:
             keep = sorted(set(rnd.sample(cpus, len(cpus) - rnd.randint(1, 2))) | {cand[0]})
             cfg["availableResources"] = {"cpu": "cpuset:" + ",".join(map(str, keep))}
